@@ -322,7 +322,15 @@ def main(argv):
         if name in locked and status == "unknown":
             # solver time-out: undecided by definition, never an alarm (the bounded domain found no failing input either)
             undecided.append((name, status, "solver returned unknown within the budget and no failing input was found"))
-        elif name in locked and not internal:
+        elif (name in locked and not internal) or \
+                (status == "refuted" and any(x.startswith(fn + "/") for x in locked) and
+                 ("/post/unexpected-exception:" in name or o.get("kind") == "frame" or
+                  (o.get("kind") == "safety" and name.split("/")[-1].split(":")[0] in ("local-assigned-before-use", "operand-not-None")))):
+            # (obligations that exist only when violated - an exception the contract does not allow, a write outside the
+            #  frame, a read of an unassigned local, a None operand - have no counterpart on the reference tree, so their names
+            #  cannot be in the lock; the clauses they stand for are part of the locked contract of the function.
+            #  Presence of a key / field / attribute that the contract's object type does not declare is NOT in this list: that
+            #  is a limit of the model, reported as undecided)
             violations.append(("obligation", name, dict(obligation=name, status=status, line=o.get("line"),
                                                         path=o.get("path"), backend=o.get("backend"), kind=o.get("kind"),
                                                         inputs=o.get("inputs"), no_input=True)))
